@@ -84,7 +84,8 @@ S_BLUE = ['str', 'blue']
 
 
 def M(mid, classes, doctypes, keys, scalars, reg=None, qtags=('seq',),
-      mtags=('map',), oddkeys=(), stags=(), family='load', note=''):
+      mtags=('map',), oddkeys=(), stags=(), family='load', note='',
+      qn=4, tn=5):
     names = [c['name'] for c in classes]
     return {
         'id': mid, 'classes': classes,
@@ -94,7 +95,7 @@ def M(mid, classes, doctypes, keys, scalars, reg=None, qtags=('seq',),
         'stags': list(stags),      # extra explicit tags tried on scalars
         'qtags': list(qtags), 'mtags': list(mtags),
         'oddkeys': [list(s) for s in oddkeys],
-        'family': family, 'note': note,
+        'family': family, 'note': note, 'qn': qn, 'tn': tn,
     }
 
 
@@ -106,7 +107,8 @@ def models():
                                 U(BOOLFIX, INT), U(BOOL, BOOLFIX, STR)],
                 keys=['a'], scalars=[S_ABC, S_42Q, S_42, S_15, S_TRUE, S_NULL,
                                      S_DATE],
-                stags=['!Unknown', '!Path'], family='builtin'))
+                stags=['!Unknown', '!Path', 'int', 'bool', 'timestamp', 'float'],
+                family='builtin'))
     ms.append(M('collections', [], [L(INT), L(L(STR)), D(INT), D(L(STR)),
                                     L(U(INT, STR)), D(ANY), L(ANY),
                                     U(L(INT), D(INT)), Opt(L(STR)),
